@@ -169,7 +169,15 @@ def build_program(rs):
             comp_classes[n] = comp_classes[c["same_as"]]
             CTX.shared_names.update({n, c["same_as"]})
             src = next(x for x in rs["comps"] if x["n"] == c["same_as"])
-            for attr in list(src.get("resets", {})) + list(src.get("base_resets", {})) + list(src.get("plain", {})):
+            if c.get("derived"):
+                # the class of this component derives from the class of the earlier one (a Shooter that is a
+                # Mechanism): it adds a marker of its own and may declare an inherited one again with another default
+                dns = {}
+                for attr, default in c.get("resets", {}).items():
+                    if attr not in src.get("resets", {}) or src["resets"][attr] != default:
+                        dns[attr] = will_reset_to(NO_TARGET if default == "<NO_TARGET>" else default)
+                comp_classes[n] = type(f"Comp_{n}", (comp_classes[c["same_as"]],), dns)
+            for attr in list(c.get("resets", {})) + list(src.get("base_resets", {})) + list(src.get("plain", {})):
                 CTX.snap_attrs.append((n, attr))
             order.append(n)
             continue
@@ -212,6 +220,18 @@ def build_program(rs):
                 ns["on_enable"] = None
             if not c.get("dis"):
                 ns["on_disable"] = None
+        if c.get("late_dis") and not late and not c.get("sm"):
+            def _ld_tag(self, what, _n=n):
+                name = getattr(getattr(self, "logger", None), "name", None)
+                return f"{name if name in CTX.shared_names else _n}.{what}"
+
+            def arming_on_enable(self, _ld_tag=_ld_tag):
+                if "on_disable" not in self.__dict__:
+                    self.on_disable = lambda: CTX.hit(_ld_tag(self, "on_disable"))
+                CTX.hit(_ld_tag(self, "on_enable"))
+
+            ns["on_enable"] = arming_on_enable
+            ns.pop("on_disable", None)
         if c.get("rebind_hooks") and not late and not c.get("sm"):
             def _hook_tag(self, what, _n=n):
                 name = getattr(getattr(self, "logger", None), "name", None)
@@ -441,6 +461,7 @@ class Expect:
         self.hooks = set(rs["hooks"])
         self.comp = {c["n"]: c for c in rs["comps"]}
         self.mode = active_mode(rs)
+        self.armed = set()
         self.fbs = [f"fb:{c['n']}.{fb['m']}" for c in rs["comps"] for fb in c.get("fbs", [])] + [f"fb:robot.{fb['m']}" for fb in rs.get("rfbs", [])]
 
     def hook(self, h):
@@ -448,7 +469,11 @@ class Expect:
 
     def comps(self, what):
         key = {"on_enable": "en", "on_disable": "dis", "setup": "setup"}[what]
-        return [f"{n}.{what}" for n in self.order if self.comp[n].get(key)]
+        out = [f"{n}.{what}" for n in self.order if self.comp[n].get(key) and not (what == "on_disable" and self.comp[n].get("late_dis") and n not in self.armed)]
+        if what == "on_enable":
+            # components that only acquire their on_disable hook when they are enabled for the first time
+            self.armed.update(n for n in self.order if self.comp[n].get("late_dis"))
+        return out
 
     def boot(self):
         return ["createObjects"] + self.comps("setup")
@@ -774,6 +799,15 @@ def decode_robot(code):
             # same class as the previous component: everything but the name is shared
             prev = comps[i - 1]
             c = dict(prev, n=f"c{i}", same_as=prev["n"])
+            if flags & 1:
+                c["derived"] = True
+                c["resets"] = dict(prev.get("resets", {}))
+                c["resets"]["d0"] = RESET_VALUES[flags % 5]
+                inherited = sorted(k for k in prev.get("resets", {}) if prev["resets"][k] != "<NO_TARGET>")
+                if inherited and flags & 2:
+                    k0 = inherited[0]
+                    c["resets"][k0] = RESET_VALUES[(RESET_VALUES.index(prev["resets"][k0]) + 1) % 5]
+                c.pop("init_marked", None)
             comps.append(c)
             continue
         if rv == 2 and not nplain:
@@ -791,7 +825,12 @@ def decode_robot(code):
         elif flags & 16 and c["en"] and c["dis"] and not c.get("sm") and not c.get("late_hooks"):
             # the component replaces its own on_enable / on_disable on the instance the first time it is enabled
             # (e.g. self.on_disable = self.motor.stop once the motor exists): the hook that counts is the current one
-            c["rebind_hooks"] = True
+            if rv % 2:
+                c["rebind_hooks"] = True
+            else:
+                # ... or it has no on_disable at all until it is enabled for the first time, when it installs one on the
+                # instance (a component armed at run time): from then on the hook is there and counts
+                c["late_dis"] = True
         elif flags & 32 and not c.get("sm") and not c.get("late_hooks") and not (c["en"] and c["dis"]):
             # a hook the component does not have is spelled out as None (class attribute `on_disable = None`, the way
             # a subclass opts out of an inherited hook): still "no hook"
